@@ -134,3 +134,21 @@ package y
 //@   props C28
 //@   requires len(b) >= 8
 //@   ensures result == be64(b, 0)
+
+// ---- watermarks (C34): the sequential part; the processing goroutine is not verified ----
+
+//@ func (*WaterMark).Begin
+//@   props C34
+//@   ensures w.lastIndex.v == index
+//@   assigns w.lastIndex.v
+//@ func (*WaterMark).Done
+//@   props C34
+//@ func (*WaterMark).DoneUntil
+//@   props C34
+//@   ensures result == w.doneUntil.v
+// WaitForMark returns nil only after the processing goroutine has advanced doneUntil to the
+// index (it closes the waiter's channel only then); doneUntil only grows. Trusted: goroutine.
+//@ trusted func (*WaterMark).WaitForMark
+//@   ensures result == nil ==> w.doneUntil.v >= index
+//@   ensures w.doneUntil.v >= old(w.doneUntil.v)
+//@   assigns w.doneUntil.v
